@@ -128,7 +128,7 @@ def obs_mesh(m):
     if hasattr(m, "cells"):
         att["C"] = obs_dense_attrs(m.cells, len(m.cells))
         att["CC"] = obs_dense_attrs(m.cell_corners, len(m.cell_corners))
-        ncf = sum(len(c) for c in m.cells)
+        ncf = sum(4 if len(c) == 4 else 6 for c in m.cells)   # facets: 4 per tetrahedron, 6 per hexahedron
         adj = None
         cf = []
         for name in m.cell_faces.attributes:
@@ -192,7 +192,7 @@ def build_mesh(spec):
         cont = getattr(m, conts[ck], None)
         if cont is None:
             continue
-        size = len(cont) if ck != "CF" else sum(len(c) for c in m.cells)
+        size = len(cont) if ck != "CF" else sum(4 if len(c) == 4 else 6 for c in m.cells)
         for a in alist:
             kw = {}
             if a.get("dense"):
